@@ -305,7 +305,7 @@ Definition evt_ok (w : world) (e : event) : Prop :=
   | EvKill => w_killed w = true
   | EvListener nf => alookup nf (w_conns w) = None
   | EvHup fd => exists x, alookup fd (w_conns w) = Some x
-  | EvIn fd => exists x, alookup fd (w_conns w) = Some x /\ sc_out x = false
+  | EvIn fd _ => exists x, alookup fd (w_conns w) = Some x /\ sc_out x = false
   | EvOut fd _ => exists x, alookup fd (w_conns w) = Some x /\ sc_out x = true
   end.
 
@@ -351,7 +351,7 @@ Theorem handle_ok w toks e :
                  /\ w_nextg w <= w_nextg w')%nat
   \/ handle_event w e = inr EOverflow.
 Proof.
-  intros HI Hev Hk. destruct e as [fd|fd|fd kk|nf|]; [| | | |congruence]; cbn [evt_ok] in Hev; cbn [Server.handle_event].
+  intros HI Hev Hk. destruct e as [fd|fd kk|fd kk|nf|]; [| | | |congruence]; cbn [evt_ok] in Hev; cbn [Server.handle_event].
   - (* hang-up *)
     destruct Hev as (x & HL). rewrite HL. left. do 2 eexists. split; [reflexivity|].
     split; [|split; [reflexivity|cbn; lia]]. cbn [ytoks map app]. unfold set_conn.
@@ -364,9 +364,12 @@ Proof.
     destruct Hev as (x & HL & Hout). rewrite HL.
     pose proof (inv_cc _ _ HI _ _ HL) as Hok. pose proof Hok as [_ [ph I]].
     set (cl := client_of w (sc_client x)).
-    set (n := Nat.min (BUF - length (c_win (sc_conn x))) (length (k_tosrv cl))).
+    set (n := read_amount kk (BUF - length (c_win (sc_conn x))) (length (k_tosrv cl))).
+    assert (Hra : (n <= (BUF - length (c_win (sc_conn x))) /\ n <= (length (k_tosrv cl)) /\ (1 <= (BUF - length (c_win (sc_conn x))) -> 1 <= (length (k_tosrv cl)) -> 1 <= n))%nat)
+      by (unfold n, read_amount; destruct (Nat.eqb kk 0) eqn:Ek; [|apply Nat.eqb_neq in Ek]; lia).
+    destruct Hra as (Ra1 & Ra2 & Ra3).
     assert (Hevk : ev_ok BUF (sc_conn x) (RData (firstn n (k_tosrv cl)) [])).
-    { cbn. rewrite firstn_length. pose proof (conn_win_short _ _ I). unfold n. lia. }
+    { cbn. rewrite firstn_length. pose proof (conn_win_short _ _ I). lia. }
     destruct (cc_read x (RData (firstn n (k_tosrv cl)) [])) as [[y rs]|err] eqn:R.
     + destruct (cc_read_facts _ _ _ _ Hok Hout Hevk R) as (Hg & Hc & Hio & Hinfl & Hmid & HC).
       left. do 2 eexists. split; [reflexivity|]. split; [|split; [reflexivity|cbn; lia]].
@@ -479,17 +482,17 @@ Qed.
 (* ---------- a whole readiness batch, in any order ---------- *)
 Inductive ekey := KKill | KListen | KConn (fd : nat).
 Definition ev_key (e : event) : ekey :=
-  match e with EvKill => KKill | EvListener _ => KListen | EvHup fd | EvIn fd | EvOut fd _ => KConn fd end.
+  match e with EvKill => KKill | EvListener _ => KListen | EvHup fd | EvIn fd _ | EvOut fd _ => KConn fd end.
 
 Definition touched (e : event) (fd' : nat) : Prop :=
-  match e with EvKill => False | EvListener nf => fd' = nf | EvHup fd | EvIn fd | EvOut fd _ => fd' = fd end.
+  match e with EvKill => False | EvListener nf => fd' = nf | EvHup fd | EvIn fd _ | EvOut fd _ => fd' = fd end.
 
 (* C09_noninterference: handling an event leaves every other connection untouched *)
 Lemma handle_frame w e w' ys :
   handle_event w e = inl (w', ys) ->
   w_killed w' = w_killed w /\ forall fd', ~ touched e fd' -> alookup fd' (w_conns w') = alookup fd' (w_conns w).
 Proof.
-  destruct e as [fd|fd|fd kk|nf|]; cbn [Server.handle_event touched].
+  destruct e as [fd|fd kk|fd kk|nf|]; cbn [Server.handle_event touched].
   - destruct (alookup fd (w_conns w)); [|discriminate]. intros H; inversion H; subst; cbn. split; auto.
     intros fd' Hn. apply alookup_update_other. congruence.
   - destruct (alookup fd (w_conns w)) as [x|]; [|discriminate].
@@ -510,7 +513,7 @@ Lemma evt_ok_frame w e w' ys e' :
   (forall nf nf', e = EvListener nf -> e' = EvListener nf' -> False) -> evt_ok w' e'.
 Proof.
   intros Hev H Hev' Hk _. destruct (handle_frame _ _ _ _ H) as [Hkill Hfr].
-  destruct e' as [fd'|fd'|fd' kk'|nf'|]; cbn [evt_ok] in *.
+  destruct e' as [fd'|fd' kk'|fd' kk'|nf'|]; cbn [evt_ok] in *.
   - destruct Hev' as (x & HL). exists x. rewrite Hfr; auto.
     intros T. destruct e; cbn in *; try tauto; subst; try congruence.
   - destruct Hev' as (x & HL & Ho). exists x. rewrite Hfr; auto.
